@@ -563,7 +563,17 @@ def _ground_rule_dtypes(prog: Program, col: Collector, refs: Refs, cat: Catalogu
         if f.fq in seen or isinstance(f.node, ast.Lambda):
             continue
         seen.add(f.fq)
-        opname = f.positional[0] if f.positional else None
+        _ground_rule_dtypes_one(prog, col, refs, f, f.positional[0] if f.positional else None, GROUND)
+    # the eager_unary methods of the ground terms themselves (Number.eager_unary(self, op), Tensor.eager_unary(self, op)): same obligation
+    for fq in ("funsor.terms::Number.eager_unary", "funsor.tensor::Tensor.eager_unary"):
+        f = prog.funcs.get(fq)
+        if f is not None and len(f.positional) >= 2 and f.fq not in seen:
+            seen.add(f.fq)
+            _ground_rule_dtypes_one(prog, col, refs, f, f.positional[1], GROUND)
+
+
+def _ground_rule_dtypes_one(prog: Program, col: Collector, refs: Refs, f, opname, GROUND):
+    if True:
         defs: Dict[str, List[ast.AST]] = {}
         for n in walk_no_nested(f.node):
             if isinstance(n, ast.Assign) and len(n.targets) == 1 and isinstance(n.targets[0], ast.Name):
